@@ -86,6 +86,10 @@ pub use sentence::{CharacterBoundary, CharacterType, Sentence, Token, TokenItera
 
 #[cfg(feature = "train")]
 pub use trainer::{SolverType, Trainer};
+#[cfg(feature = "train")]
+#[cfg(vaporetto_verif)]
+#[doc(hidden)]
+pub use trainer::VERIF_LEARNED;
 
 #[cfg(feature = "kytea")]
 pub use kytea_model::KyteaModel;
